@@ -15,7 +15,11 @@ ENV = dict(os.environ, GOFLAGS="-mod=mod", GOPROXY="off", GOSUMDB="off", GOTOOLC
 
 
 def sh(cmd, cwd=None, timeout=900):
-    p = subprocess.run(cmd, shell=True, cwd=cwd, env=ENV, capture_output=True, text=True, timeout=timeout)
+    try:
+        p = subprocess.run(cmd, shell=True, cwd=cwd, env=ENV, capture_output=True, text=True, timeout=timeout, start_new_session=True)
+    except subprocess.TimeoutExpired as e:
+        subprocess.run(["pkill", "-x", "harness"])
+        return 124, "TIMEOUT after %d s\n%s" % (timeout, (e.stdout or b"").decode("utf-8", "replace") if isinstance(e.stdout, bytes) else (e.stdout or ""))
     return p.returncode, (p.stdout + p.stderr)
 
 
@@ -82,7 +86,7 @@ def run(sid, props):
     try:
         for p in props:
             t0 = time.time()
-            rc, o = sh("./check %s --tier quick" % p, ROOT, 1800)
+            rc, o = sh("./check %s --tier quick" % p, ROOT, 1200)
             lines = [l for l in o.splitlines() if l.startswith(("VIOLATION", "OK ", "KNOWN-FINDING")) or l.startswith("  ")]
             viol = [l for l in o.splitlines() if l.startswith("VIOLATION")]
             res[p] = {"rc": rc, "caught": rc != 0 and bool(viol), "with_input": any("no-failing-input-found" not in l for l in viol),
@@ -114,6 +118,8 @@ def table():
 
 
 if __name__ == "__main__":
+    import signal
+    signal.signal(signal.SIGTERM, lambda *_: (_ for _ in ()).throw(KeyboardInterrupt()))
     a = sys.argv[1:]
     if a[0] == "confirm":
         confirm(a[1], a[2] if len(a) > 2 else "")
